@@ -102,6 +102,17 @@ def install(reg, src):
         define_array(ip, csum, n, lambda k: real_term(carr.get(k)), "code")
         define_array(ip, prod, n, lambda k: z3.Select(csum, k) * z3.Select(X.arr, k), "code")
         p.assume(DOT(csum, n, X.arr) == ip.schema.PSUM(prod, n))
+        # lemma instance (lean: dot_neg / Finset.sum_neg_distrib): if the vector passed is, entry by entry, the negation of the
+        # extracted objective row, its dot product with x is the negated one; the hypothesis is refuted by an in-range Skolem
+        lp_c = sym.fn("LP_c", sym.Ref, sym.RealArr)(lpref)
+        skn = skolem(ip, "sk_dotneg", n)
+        ip.reg.index_used(ip, skn)
+        p.assume(z3.Or(z3.And(skn >= 0, skn < n, z3.Select(csum, skn) != -z3.Select(lp_c, skn)),
+                       DOT(csum, n, X.arr) == -DOT(lp_c, n, X.arr)))
+        ske = skolem(ip, "sk_dotext", n)        # lean: dot_ext / Finset.sum_congr
+        ip.reg.index_used(ip, ske)
+        p.assume(z3.Or(z3.And(ske >= 0, ske < n, z3.Select(csum, ske) != z3.Select(lp_c, ske)),
+                       DOT(csum, n, X.arr) == DOT(lp_c, n, X.arr)))
         p.ghost["lp_call"] = {"c_arr": csum, "kwargs": dict(kwargs), "result": r}
         p.assume(z3.Implies(r["success"].t, z3.And(z3.Not(xnone), z3.Not(fnone), fun == DOT(csum, n, X.arr),
                                                    LPFEAS(X.arr, ctx["passed_ref"](kwargs)))))
